@@ -3,6 +3,7 @@ package life
 import (
 	"fmt"
 	"os"
+	"runtime"
 	"strconv"
 	"strings"
 	"syscall"
@@ -143,7 +144,10 @@ func runC13(c *LCase, failFirst bool) (viol string, nontrivial bool, feats []str
 			return r.viol, true, feats
 		}
 	}
-	if v := settled(base, "after Close returned and both channels closed"); v != "" {
+	v := settled(base, "after Close returned and both channels closed")
+	runtime.KeepAlive(keepAlive)
+	keepAlive = keepAlive[:0]
+	if v != "" {
 		return v, true, feats
 	}
 	return "", r.nontrivial || failFirst, feats
